@@ -52,6 +52,13 @@ class EscRec:
         l = is_local(op)
         if l is not None:
             return st.get(("val", l))
+        # a field of a value of a private enum / struct built earlier on this path: (_x as Variant).i
+        pl = op_place(op)
+        if pl is not None and pl["p"]:
+            base = st.get(("val", pl["l"]))
+            fld = [e for e in pl["p"] if e["k"] == "field"]
+            if base is not None and base[0] == "adt" and len(fld) == 1 and all(e["k"] in ("field", "downcast", "deref") for e in pl["p"]) and fld[0]["i"] < len(base[2]):
+                return base[2][fld[0]["i"]]
         return None
 
     def guard(self, bi, st):
@@ -91,6 +98,12 @@ class EscRec:
         elif rv["k"] == "agg" and rv.get("variant") == "Ok" and l == 0:
             k = self._known(st, rv["ops"][0])
             return ("ret", k[1] if k and k[0] == "chr" else "dynamic")
+        elif rv["k"] == "agg" and rv.get("adt") and rv.get("vidx") is not None:
+            v = ("adt", rv["vidx"], tuple(self._known(st, o) for o in rv["ops"]))
+        elif rv["k"] == "discr":
+            base = st.get(("val", rv["p"]["l"])) if not [e for e in rv["p"]["p"] if e["k"] != "deref"] else None
+            if base is not None and base[0] == "adt":
+                v = ("num", base[1])
         if v is None:
             st.pop(("val", l), None)
         else:
